@@ -412,6 +412,13 @@ package pfcp
 //@   loop range(pdrInfo.RelatedURRIDs):
 //@     modifies s.URRIDs[_].refPdrNum
 //@     invariant [termr] forall j int :: 0 <= j && j < len(usars) ==> usars[j].USARTrigger.Flags & report.USAR_TRIG_TERMR != 0
+//@     invariant [ok]    sessOK(s)
+//@     invariant [keep]  forall u uint32 :: u in s.URRIDs && !(u in pdrInfo.RelatedURRIDs) ==> s.URRIDs[u].refPdrNum == old(s.URRIDs[u].refPdrNum)
+//@   loop range(newUrrids):
+//@     modifies s.URRIDs[_].refPdrNum
+//@     invariant [ok]    sessOK(s)
+//@     invariant [inc]   forall u uint32 :: u in s.URRIDs && !(u in pdrInfo.RelatedURRIDs) ==>
+//@                         s.URRIDs[u].refPdrNum == old(s.URRIDs[u].refPdrNum) + ite(u in visited, uint16(1), uint16(0))
 //@   at call UpdatePDR#2:
 //@     assume [A-PDRID] pdrid == pdrIdOf(req)
 //@     assert [seid]    arg0 == s.LocalID && arg1 == req
@@ -1130,3 +1137,85 @@ package pfcp
 //@     fold sessOK(sess)
 //@     fold allSessOK(s.lnode)
 //@     fold nodeInv(s.lnode)
+
+// ---------------------------------------------------------------------------------------------
+// Reports from the data plane (C10, C11, C13).
+// A-SEQWINDOW (assumed): no transaction with the sequence number about to be used is still outstanding towards
+// the same peer (2^24 requests would have to be in flight within one retention window).
+
+//@ func (s *PfcpServer) serveUSAReport(addr net.Addr, lSeid uint64, usars []report.USAReport) (err error)
+//@   requires s != nil && srvInv(s) && addr != nil
+//@   ensures [inv]   srvInv(s)
+//@   ensures [dead]  !old(live(s.lnode, lSeid)) ==> err != nil && s.txTrans == old(s.txTrans) && len(s.txTrans) == old(len(s.txTrans)) && s.txSeq == old(s.txSeq)
+//@   ensures [dp]    DP == old(DP) && CREATED == old(CREATED)
+//@   ensures [slots] forall id uint64 :: (live(s.lnode, id) == old(live(s.lnode, id))) && (old(live(s.lnode, id)) ==> s.lnode.sess[id-1] == old(s.lnode.sess[id-1]))
+//@   modifies *
+//@   flag perreturn
+//@   serves C10 C11 C09 C05 C07
+//@   loop range(usars):
+//@     modifies whole(sess.URRIDs[_].SEQN), req.UsageReport, r.*
+//@     invariant [req] req != nil && req.Header != nil && req.Header.Type == 56 && req.Header.SEID == sess.RemoteID
+//@   at call Sess:
+//@     unfold nodeInv(s.lnode)
+//@   after call Sess:
+//@     unfold allSessOK(s.lnode)
+//@   at call NewSessionReportRequest:
+//@     assert [seid] arg2 == sess.RemoteID
+//@   at call URRSeq:
+//@     unfold sessOK(sess)
+//@     assert [mine]  recv == sess && live(s.lnode, lSeid) && sess == s.lnode.sess[lSeid-1]
+//@   at call IEsWithinSessReportReq:
+//@     assert [seqn]  recv.URSEQN + 1 == sess.URRIDs[recv.URRID].SEQN
+//@     assert [method] arg0.DURAT == sess.URRIDs[recv.URRID].MeasureMethod.DURAT && arg0.VOLUM == sess.URRIDs[recv.URRID].MeasureMethod.VOLUM && arg0.EVENT == sess.URRIDs[recv.URRID].MeasureMethod.EVENT
+//@     assert [info]   arg1.MBQE == sess.URRIDs[recv.URRID].MeasureInformation.MBQE && arg1.INAM == sess.URRIDs[recv.URRID].MeasureInformation.INAM && arg1.RADI == sess.URRIDs[recv.URRID].MeasureInformation.RADI &&
+//@                     arg1.ISTM == sess.URRIDs[recv.URRID].MeasureInformation.ISTM && arg1.MNOP == sess.URRIDs[recv.URRID].MeasureInformation.MNOP
+//@   at call sendReqTo:
+//@     assume [A-SEQWINDOW] !(trKey(addr, s.txSeq) in s.txTrans)
+//@     assert [to]    arg1 == addr && arg0 == iface(req) && req.Header.SEID == sess.RemoteID
+
+//@ func (s *PfcpServer) serveDLDReport(addr net.Addr, lSeid uint64, pdrid uint16) (err error)
+//@   requires s != nil && srvInv(s) && addr != nil
+//@   ensures [inv]   srvInv(s)
+//@   ensures [dp]    DP == old(DP) && CREATED == old(CREATED)
+//@   ensures [slots] forall id uint64 :: (live(s.lnode, id) == old(live(s.lnode, id))) && (old(live(s.lnode, id)) ==> s.lnode.sess[id-1] == old(s.lnode.sess[id-1]))
+//@   modifies s.txSeq, s.txTrans[_]
+//@   flag perreturn
+//@   serves C13 C10 C09 C05 C07
+//@   at call Sess:
+//@     unfold nodeInv(s.lnode)
+//@   at call NewSessionReportRequest:
+//@     assert [seid] arg2 == sess.RemoteID
+//@     assert [dldr] len(arg5) == 2 && arg5[0] == ie.NewReportType(0, 0, 0, 1)
+//@   at call NewDownlinkDataReport:
+//@     assert [pdr]  len(arg0) == 1 && arg0[0] == ie.NewPDRID(pdrid)
+//@   at call sendReqTo:
+//@     assume [A-SEQWINDOW] !(trKey(addr, s.txSeq) in s.txTrans)
+//@     assert [to]    arg1 == addr && arg0 == iface(req)
+
+// ServeReport: a batch of reports for one SEID.  Buffered packets go to that session's own queue, notifications and
+// usage reports go out addressed to the peer SEID of that session, to <node id of the owning node>:8805.
+//@ func (s *PfcpServer) ServeReport(sr *report.SessReport)
+//@   requires s != nil && srvInv(s) && sr != nil
+//@   requires [A-BATCH] forall i int :: 0 <= i && i < len(sr.Reports) ==> sr.Reports[i] != nil
+//@   ensures [inv]   srvInv(s)
+//@   ensures [dp]    DP == old(DP) && CREATED == old(CREATED)
+//@   ensures [slots] forall id uint64 :: (live(s.lnode, id) == old(live(s.lnode, id))) && (old(live(s.lnode, id)) ==> s.lnode.sess[id-1] == old(s.lnode.sess[id-1]))
+//@   modifies *
+//@   reveal linked
+//@   flag perreturn
+//@   serves C10 C13 C05 C07
+//@   loop range(sr.Reports):
+//@     modifies sess.q[_], whole(chans(sess.q)), s.txSeq, s.txTrans[_]
+//@     invariant [ok]   srvInv(s) && sessOK(sess)
+//@   at call Sess:
+//@     unfold nodeInv(s.lnode)
+//@   after call Sess:
+//@     unfold allSessOK(s.lnode)
+//@   at call ResolveUDPAddr:
+//@     assert [owner] arg1 == sprintf("%s:%d", sess.rnode.ID, 8805)
+//@   at call Push:
+//@     assert [mine]  recv == sess && sess == s.lnode.sess[sr.SEID-1] && live(s.lnode, sr.SEID)
+//@   at call serveDLDReport:
+//@     assert [seid]  arg1 == sr.SEID && arg0 == iface(laddr)
+//@   at call serveUSAReport:
+//@     assert [seid]  arg1 == sr.SEID && arg0 == iface(laddr)
